@@ -867,6 +867,36 @@ impl Wake for Flag {
     }
 }
 
+/// One waker per poll (all of a task's wakers set the task's flag): a registration anywhere - SimQuic, a tokio
+/// channel, h3's AtomicWaker - has to CLONE the waker it was polled with, because it cannot be the one stored before.
+struct PollWaker(Arc<Flag>);
+impl Wake for PollWaker {
+    fn wake(self: Arc<Self>) {
+        self.0 .0.store(true, Ordering::SeqCst);
+    }
+    fn wake_by_ref(self: &Arc<Self>) {
+        self.0 .0.store(true, Ordering::SeqCst);
+    }
+}
+
+thread_local! {
+    static LOST_WAKEUPS: std::cell::Cell<u32> = std::cell::Cell::new(0);
+    static HARNESS_YIELD: std::cell::Cell<bool> = std::cell::Cell::new(false);
+}
+/// a gate of the harness itself (not h3) is about to answer Pending without arranging a wake-up
+pub fn harness_yield() {
+    HARNESS_YIELD.with(|h| h.set(true));
+}
+/// number of task polls since the last call that answered Pending although the waker they were polled with was neither
+/// cloned (registered somewhere) nor woken: under a wake-driven executor such a task is never polled again
+pub fn take_lost_wakeups() -> u32 {
+    LOST_WAKEUPS.with(|l| l.replace(0))
+}
+fn lostwake_enabled() -> bool {
+    thread_local! { static ON: bool = std::env::var("H3V_LOSTWAKE").map(|v| v == "1").unwrap_or(false); }
+    ON.with(|o| *o)
+}
+
 pub type Task = Pin<Box<dyn Future<Output = String>>>;
 
 pub struct Exec {
@@ -900,16 +930,30 @@ impl Exec {
             None => return false,
         };
         self.flags[i].0.store(false, Ordering::SeqCst);
-        let waker = Waker::from(self.flags[i].clone());
+        let pw = Arc::new(PollWaker(self.flags[i].clone()));
+        // without H3V_LOSTWAKE=1 the task keeps one waker for all its polls, exactly as before
+        let waker = if lostwake_enabled() { Waker::from(pw.clone()) } else { Waker::from(self.flags[i].clone()) };
         let mut cx = Context::from_waker(&waker);
         self.polls += 1;
+        HARNESS_YIELD.with(|h| h.set(false));
         match fut.as_mut().poll(&mut cx) {
             Poll::Ready(s) => {
                 self.results[i] = Some(s);
                 self.tasks[i] = None;
                 true
             }
-            Poll::Pending => false,
+            Poll::Pending => {
+                if lostwake_enabled() {
+                    // `pw` and `waker` hold one reference each; any registration holds a third
+                    let registered = Arc::strong_count(&pw) > 2;
+                    let woken = self.flags[i].0.load(Ordering::SeqCst);
+                    let gate = HARNESS_YIELD.with(|h| h.get());
+                    if !registered && !woken && !gate {
+                        LOST_WAKEUPS.with(|l| l.set(l.get() + 1));
+                    }
+                }
+                false
+            }
         }
     }
     pub fn is_woken(&self, i: usize) -> bool {
